@@ -44,6 +44,9 @@ structure Node where
   store : List ((Nat × Nat) × Bytes)        -- `data_store`, latest binding first
   readCb : List ((Nat × Nat) × Val)         -- the application's read callback as a table
   writeLog : List (Nat × Nat × Bytes)       -- what the write callbacks were told, in order
+  /-- an application write callback (registered ahead of the others) that refuses downloads to
+      these objects by raising `SdoAbortedError(code)` -/
+  refuse : List ((Nat × Nat) × Nat) := []
 deriving Repr
 
 inductive Err where
@@ -125,7 +128,9 @@ def setData (n : Node) (index sub : Option Nat) (data : Bytes) (checkWritable : 
     else
       let i := index.getD 0
       let s := sub.getD 0
-      .ok { n with writeLog := n.writeLog ++ [(i, s, data)], store := ((i, s), data) :: n.store }
+      match lookup (i, s) n.refuse with
+      | some code => .error (.abort code)      -- the callback raised: nothing is stored
+      | none => .ok { n with writeLog := n.writeLog ++ [(i, s, data)], store := ((i, s), data) :: n.store }
 
 /-! ### server -/
 
